@@ -129,7 +129,7 @@ func c04() []*Ob {
 						}
 					}
 				}
-				if fn := c.P.Func("(*frac.sealedFetchIndex).findLIDs"); fn == nil || len(CallsIn(fn, Callee("util.BinSearchInRange", "sort.Search"))) == 0 {
+				if fn := c.P.Func("(*frac.sealedFetchIndex).findLIDs"); fn == nil || !Current.HasCall(fn, Callee("util.BinSearchInRange", "sort.Search")) {
 					c.Undecided("index:findLIDs-anchor", token.NoPos, "(*frac.sealedFetchIndex).findLIDs no longer performs the binary search this rule is about")
 				}
 				c.Count("search_sites", n)
@@ -148,7 +148,7 @@ func c04() []*Ob {
 					if cl == nil {
 						continue
 					}
-					hasRecover := len(CallsIn(cl, Callee("builtin.recover"))) > 0
+					hasRecover := Current.HasCall(cl, Callee("builtin.recover"))
 					storesErr := false
 					for _, st := range InstrsIn(cl, func(in ssa.Instruction) bool { s, ok := in.(*ssa.Store); return ok && IsErrorType(s.Val.Type()) }) {
 						s := st.(*ssa.Store)
@@ -169,7 +169,7 @@ func c04() []*Ob {
 				for _, f := range CallsIn(fn, fetchM) {
 					dom := false
 					for _, d := range InstrsIn(fn, func(in ssa.Instruction) bool { _, ok := in.(*ssa.Defer); return ok }) {
-						if cl := StaticCallee(d.(*ssa.Defer)); cl != nil && len(CallsIn(cl, Callee("builtin.recover"))) > 0 && Dominates(d, f.(ssa.Instruction)) {
+						if cl := StaticCallee(d.(*ssa.Defer)); cl != nil && Current.HasCall(cl, Callee("builtin.recover")) && Dominates(d, f.(ssa.Instruction)) {
 							dom = true
 						}
 					}
